@@ -15,6 +15,7 @@ THR = RV('1/100') * PI / 180
 def run(ck):
     ck.bounds = dict(J5='[-4pi,4pi]', offset5='[-2pi,2pi]', sign5='{+1,-1}', other_joints='arbitrary reals')
     ck.assumptions += ['real arithmetic', 'collinearity of joint axes 4 and 6 <=> q5 multiple of pi (proved for the link chain in C03: z6 = R4*Ry(q5)*z)']
+    if False: pass
     roles = {'J5-offset-or-sign-ignored': lambda c: c['off'][4] != 0.0 or c['sign'][4] != 1.0,
              'negative-side-of-band': lambda c: True}
     for sg in (1, -1):
